@@ -391,11 +391,22 @@ impl<'a, R: Clone> AsyncGlobalCache<'a, R> {
 
             // Expired - remove and continue
             drop(entry_ref);
-            self.cache.remove(key);
 
-            // Also remove from order queue to prevent orphaned keys
+            // Remove from the cache and from the order queue inside one order-queue
+            // critical section (as every other update does), and only if the entry is
+            // still the expired one: another task may have stored a fresh value meanwhile,
+            // which must stay tracked by the queue.
             let mut order = self.order.lock();
-            order.retain(|k| k != key);
+            let ttl = self.ttl;
+            let removed = self
+                .cache
+                .remove_if(key, |_, entry| {
+                    ttl.map_or(false, |ttl| now.saturating_sub(entry.1) >= ttl)
+                })
+                .is_some();
+            if removed {
+                order.retain(|k| k != key);
+            }
         }
 
         // Record cache miss
